@@ -2475,3 +2475,51 @@ M("C15-benign-namespace-guard-as-while", "C15", F_Y, _NSG,
     outer = outer->get_parent_scope();
   }
 """, benign=True)
+
+# ================================================================ round 12 (short round, 8 properties)
+# ---- R12.13 (S12-C12)
+M("C12-lookups-reset-moved-to-read_new", "C12", F_DBX,
+  "    update_make_seq(other_make_seq_index).remap_indices(remap);\n  }\n\n  _lookups_fresh = 0;\n}", "    update_make_seq(other_make_seq_index).remap_indices(remap);\n  }\n}",
+  expect="R12.13|InterrogateDatabase::merge_from|")
+M("C12-lookups-reset-only-when-types-arrived", "C12", F_DBX,
+  "    update_make_seq(other_make_seq_index).remap_indices(remap);\n  }\n\n  _lookups_fresh = 0;\n}",
+  "    update_make_seq(other_make_seq_index).remap_indices(remap);\n  }\n\n  if (!other._type_map.empty()) {\n    _lookups_fresh = 0;\n  }\n}",
+  expect="R12.13|InterrogateDatabase::merge_from|")
+M("C12-benign-lookups-reset-first", "C12", F_DBX,
+  "    update_make_seq(other_make_seq_index).remap_indices(remap);\n  }\n\n  _lookups_fresh = 0;\n}",
+  "    update_make_seq(other_make_seq_index).remap_indices(remap);\n  }\n\n  // The by-name tables are stale now.\n  this->_lookups_fresh = 0;\n}",
+  benign=True)
+# ---- R06.19 (S12-C06)
+M("C06-benign-unused-snapshot-of-the-map", "C06", "src/cppparser/cppTemplateParameterList.cxx",
+  "  // Fill in the default template parameters.\n", "  // Fill in the default template parameters.\n  CPPDeclaration::SubstDecl given(subst);\n",
+  expect=None, benign=True)
+MUTANTS.append({"id": "C06-nontype-default-sees-only-given-arguments", "prop": "C06", "expect": "R06.19|build_subst_decl|substitute_decl", "benign": False, "edits": [
+    ("src/cppparser/cppTemplateParameterList.cxx", "  // Fill in the default template parameters.\n", "  // Fill in the default template parameters.\n  CPPDeclaration::SubstDecl given(subst);\n"),
+    ("src/cppparser/cppTemplateParameterList.cxx", "          inst->_initializer->substitute_decl(subst, current_scope,", "          inst->_initializer->substitute_decl(given, current_scope,")]})
+# ---- R16.8 (S12-C16)
+MUTANTS.append({"id": "C16-only-newly-added-libraries-discounted", "prop": "C16", "expect": "R16.8|write_python_table_native|erase-loop", "benign": False, "edits": [
+    (F_IM, "  vector_string libraries;\n  while (libraries.size() < dependencies.size()) {", "  vector_string libraries;\n  size_t num_checked = 0;\n  while (libraries.size() < dependencies.size()) {"),
+    (F_IM, "        for (auto li = libraries.begin(); li != libraries.end(); ++li) {\n          deps.erase(*li);", "        for (auto li = libraries.begin() + num_checked; li != libraries.end(); ++li) {\n          deps.erase(*li);"),
+    (F_IM, "    if (!added_any) {\n      // Oh dear", "    num_checked = libraries.size();\n\n    if (!added_any) {\n      // Oh dear")]})
+M("C16-benign-erase-loop-as-range-for", "C16", F_IM,
+  "        for (auto li = libraries.begin(); li != libraries.end(); ++li) {\n          deps.erase(*li);\n        }", "        for (const std::string &added : libraries) {\n          deps.erase(added);\n        }",
+  benign=True)
+# ---- R10.14 (S12-C10)
+M("C10-named-union-starts-private", "C10", F_Y,
+  "struct_keyword optional_attributes name_no_final\n{\n  CPPVisibility starting_vis =\n  ($1 == CPPExtensionType::T_class) ? V_private : V_public;",
+  "struct_keyword optional_attributes name_no_final\n{\n  CPPVisibility starting_vis =\n  ($1 == CPPExtensionType::T_struct) ? V_public : V_private;",
+  expect="R10.14|$@26|starting-visibility")
+M("C10-benign-starting-visibility-negated", "C10", F_Y,
+  "struct_keyword optional_attributes name_no_final\n{\n  CPPVisibility starting_vis =\n  ($1 == CPPExtensionType::T_class) ? V_private : V_public;",
+  "struct_keyword optional_attributes name_no_final\n{\n  CPPVisibility starting_vis =\n  ($1 != CPPExtensionType::T_class) ? V_public : V_private;",
+  benign=True)
+# ---- R05.14 (S12-C05)
+M("C05-call-operator-exclusion-misspelled", "C05", "src/cppparser/cppInstanceIdentifier.cxx",
+  "    if (_ident->get_simple_name() != std::string(\"operator ()\") &&", "    if (_ident->get_simple_name() != std::string(\"operator()\") &&",
+  expect="R05.14|CPPInstanceIdentifier::add_func_modifier|")
+M("C05-assignment-operator-lookup-misspelled", "C05", F_ST,
+  "  fi = _scope->_functions.find(\"operator =\");", "  fi = _scope->_functions.find(\"operator=\");",
+  expect="R05.14|")
+M("C05-benign-operator-prefix-test-with-compare", "C05", "src/cppparser/cppInstanceIdentifier.cxx",
+  "      _ident->get_simple_name().substr(0, 9) == \"operator \") {", "      _ident->get_simple_name().compare(0, 9, \"operator \") == 0) {",
+  benign=True)
